@@ -438,7 +438,10 @@ def calls_in(funcnode, include_nested=False):
 
 
 def call_name(call):
-    """Rightmost name of the callee: f(...) -> 'f'; a.b.m(...) -> 'm'."""
+    """Rightmost name of the callee: f(...) -> 'f'; a.b.m(...) -> 'm'.
+    None for anything that is not a call."""
+    if not isinstance(call, ast.Call):
+        return None
     f = call.func
     if isinstance(f, ast.Name):
         return f.id
